@@ -29,7 +29,18 @@ class StringValidator:
         validation_issues = []
         number_open_parentheses = hed_string.count('(')
         number_closed_parentheses = hed_string.count(')')
-        if number_open_parentheses != number_closed_parentheses:
+        # Equal counts are not enough: ')(' or 'Red),(Blue' close a group that was never opened.
+        depth = 0
+        closed_before_opened = False
+        for character in hed_string:
+            if character == '(':
+                depth += 1
+            elif character == ')':
+                depth -= 1
+                if depth < 0:
+                    closed_before_opened = True
+                    break
+        if number_open_parentheses != number_closed_parentheses or closed_before_opened:
             validation_issues += ErrorHandler.format_error(ValidationErrors.PARENTHESES_MISMATCH,
                                                            opening_parentheses_count=number_open_parentheses,
                                                            closing_parentheses_count=number_closed_parentheses)
